@@ -54,8 +54,11 @@ func c01Gen(r *rand.Rand, tier string) any {
 			if r.IntN(8) == 0 {
 				op.Dry = true
 			}
+			if r.IntN(12) == 0 {
+				op.IOErrPM = []int{5, 20, 60}[r.IntN(3)] // a flaky disk during this build
+			}
 			if r.IntN(9) == 0 {
-				op.CrashAt = 1 + r.IntN(2500) // the process dies at this step (if the build gets that far)
+				op.CrashAt = 1 + r.IntN(700) // the process dies at this step (if the build gets that far)
 			}
 			if r.IntN(5) == 0 {
 				// some bodies fail
@@ -116,8 +119,13 @@ func c01Exec(scAny any, c *simcheck.Ctx) *simcheck.Violation {
 			continue // the label no longer exists after simplification
 		}
 		pc := h.pc
-		pc.CrashAt = op.CrashAt
+		pc.CrashAt, pc.IOErrPM = op.CrashAt, op.IOErrPM
 		res := h.build(i, op, pc, nil)
+		if op.IOErrPM > 0 && (res.LoadErr != nil || res.RunErr != nil) && procFailure(res) == nil {
+			c.St.Count("builds_failed_under_io_errors", 1)
+			firstProcess = false
+			continue
+		}
 		if res.Sim.Crashed {
 			c.St.Count("interrupted_builds", 1)
 			firstProcess = false
